@@ -533,6 +533,17 @@ where
 
 	// mark problem spent outputs as unspent (confirmed against a short-lived fork, for example)
 	for m in accidental_spend_outs.into_iter() {
+		// the chain list was collected before the wallet records were read: ask the node again
+		{
+			let client = {
+				wallet_lock!(wallet_inst, w);
+				w.w2n_client().clone()
+			};
+			let now = client.get_outputs_from_node(vec![m.1.commit])?;
+			if !now.contains_key(&m.1.commit) {
+				continue;
+			}
+		}
 		let mut o = m.0;
 		let msg = format!(
 			"Output for {} with ID {} ({:?}) marked as spent but exists in UTXO set. \
